@@ -90,7 +90,7 @@ def build_known(pdf, seq, vec, divs):
     return dfh.dd.from_delayed(pieces, meta=pdf.iloc[:0], divisions=tuple(divs))
 
 
-def truth_problem(npartitions_attr, divisions, parts):
+def truth_problem(npartitions_attr, divisions, parts, demand_sorted=True):
     """C41, literally: npartitions == len(divisions)-1 == number of partitions, divisions ordered, every index value
     of partition i in [div[i], div[i+1]) (closed for the last)"""
     div = list(divisions)
@@ -101,13 +101,13 @@ def truth_problem(npartitions_attr, divisions, parts):
     if len(parts) != len(div) - 1:
         return "partition-count", f"{len(parts)} partitions computed for divisions {tuple(div)!r}"
     try:
-        if any(b < a for a, b in zip(div, div[1:])):
+        if demand_sorted and any(b < a for a, b in zip(div, div[1:])):
             return "divisions-unsorted", f"divisions {tuple(div)!r} decrease"
     except TypeError as e:
         return "divisions-incomparable", f"divisions {tuple(div)!r}: {e!r}"
     last = len(parts) - 1
     for i, p in enumerate(parts):
-        if len(p) == 0:
+        if p is None or len(p) == 0:
             continue
         idx = p.index if isinstance(p, (pd.DataFrame, pd.Series)) else p
         lo, hi = idx.min(), idx.max()
